@@ -113,8 +113,9 @@ class TupleCoord(recordclass.RecordClass, _IterableStub):
 
     def within_domain(self, lower, upper):
         # each component will be 0.0<->1.0
+        # A zero-width axis has a single point, which is the start of the domain
         return self.__class__(
-            *(((t - l) / (u - l)) for l, u, t in zip(lower, upper, self))
+            *(((t - l) / (u - l)) if u != l else 0.0 for l, u, t in zip(lower, upper, self))
         )
 
 
